@@ -152,10 +152,15 @@ def gen_val(rng, malformed=False):
     if kind == "num":
         return gen_num(rng)
     if kind == "pair":
-        if rng.random() < 0.6:
+        r = rng.random()
+        if r < 0.5:
             lo = rng.choice([-INF, float(rng.randint(-9, 0))])
             hi = rng.choice([INF, float(rng.randint(0, 9))])
             return (lo, hi)
+        if r < 0.8:
+            # a missing (None) side -- one or both (finding F56: must stay missing under a negated name)
+            return rng.choice([(None, gen_atom(rng)), (gen_atom(rng), None), (None, None),
+                               (None, float(rng.randint(0, 9))), (float(rng.randint(-9, 0)), None)])
         return (gen_atom(rng), gen_atom(rng))
     if kind == "list":
         return [gen_num(rng) for _ in range(rng.randint(0, 4))]
@@ -180,9 +185,14 @@ def atom_wire(x):
     raise TypeError("not an atom: %r" % (x,))
 
 
+def side_wire(x):
+    """a tuple element: None is a missing side"""
+    return {"k": "none"} if x is None else atom_wire(x)
+
+
 def to_wire(v):
     if isinstance(v, tuple):
-        return {"k": "tup", "v": [atom_wire(x) for x in v]}
+        return {"k": "tup", "v": [side_wire(x) for x in v]}
     if isinstance(v, list):
         return {"k": "list", "v": [atom_wire(x) for x in v]}
     if isinstance(v, np.ndarray):
@@ -203,6 +213,8 @@ def _neg_num(s):
 
 
 def _neg_atom(a):
+    if a["k"] == "none":
+        return a  # a missing side stays missing
     if a["k"] == "num":
         return {"k": "num", "v": _neg_num(a["v"])}
     return {"k": "ts", "t": a["t"], "v": [_neg_num(x) for x in a["v"]]}
@@ -210,7 +222,8 @@ def _neg_atom(a):
 
 def spec_signed(s, w):
     """the property's notion of 'seen through a negated alias', on wire values: a bound pair is
-    swapped and negated, a list/array/time series is negated element-wise, a number negated"""
+    swapped and negated (a missing side stays missing), a list/array/time series is negated
+    element-wise, a number negated"""
     if s > 0:
         return w
     if w["k"] == "tup":
@@ -519,6 +532,7 @@ def exhaustive_alphabet():
         {"o": "set", "k": "b", "pv": (1.0, 3.0)},
         {"o": "set", "k": "c", "pv": -4.0},
         {"o": "set", "k": "b", "pv": 5.0},
+        {"o": "set", "k": "b", "pv": (None, 3.0)},
         {"o": "get", "k": "a"},
         {"o": "get", "k": "b"},
         {"o": "get", "k": "c"},
@@ -571,7 +585,7 @@ def run(c):
         "random consistent alias graphs (2-7 names; chains, stars, random edges, negations, `-name` keys) built "
         "with the real pymoca AliasRelation x signed/unsigned AliasDict x random sequences of 1-15 operations "
         "(set/get/del/contains/len/keys/values/items/update/setdefault/get-default/copy/swap) over value kinds "
-        "number (incl. 0, 1, nan, +-inf), bound pair (floats and Timeseries), list, ndarray, Timeseries, "
+        "number (incl. 0, 1, nan, +-inf), bound pair (floats and Timeseries; one or both sides None), list, ndarray, Timeseries, "
         "malformed tuple; all sequences of a fixed length over three names (exhaustive stream); generated "
         "Modelica models with negated alias chains, non-unit nominals and multi-point histories in optimisation "
         "(dictionaries, state goals, accessors before/at/after t0 at 3 probe vectors) and simulation; generated "
@@ -614,6 +628,8 @@ def from_wire(w):
         return float(unfr(x))
 
     def atom(a):
+        if a["k"] == "none":
+            return None
         if a["k"] == "num":
             return num(a["v"])
         return Timeseries(np.array([num(t) for t in a["t"]]), np.array([num(v) for v in a["v"]]))
